@@ -51,6 +51,37 @@ def _realise(case):
     return mode, progen.realise(case["prog"], [mode], rare_refs=GOT_BASE_REFS)
 
 
+def nested_secsym_sites(case, prog, gidx, groups):
+    """Known finding `nested-r-section-symbol-double-offset`: `wild -r` over an input that is itself a
+    `wild -r` output both re-targets a section-symbol relocation at a copied STT_SECTION symbol whose
+    st_value is the section's offset in the merged output section *and* adds that offset to the addend.
+    Affected here: nesting on, the site's object is in the second nested group, the target is a local
+    symbol reached through a section-symbol relocation (not a GOT/TLS form, which keep the symbol) and
+    the first nested group also contributes to the target's section (non-zero offset). Returns the
+    affected site numbers."""
+    if not (case["nest"] and len(groups) >= 2):
+        return []
+    gs = sorted(groups)
+    first, second = gs[0], gs[1]
+    first_secs = set()
+    for dd in prog.defs:
+        for tu in (dd["tu"], dd["dup_tu"]):
+            if tu is not None and tu >= 0 and gidx[tu] == first:
+                sec = prog.def_section(dd)
+                if sec:
+                    first_secs.add(sec)
+    out = []
+    for st_ in prog.sites:
+        t = prog.defs[st_["tgt"]]
+        if gidx[st_["tu"]] != second or t["bind"] != "local":
+            continue
+        if progen.REFS[st_["ref"]][0] in ("got", "tls"):
+            continue
+        if prog.def_section(t) in first_secs:
+            out.append(st_["n"])
+    return out
+
+
 def known_r_domain(case):
     """Exact domains of the two known `wild -r` findings.
     r-drops-common-symbols: a COMMON symbol is referenced from an object that goes through `wild -r`
@@ -68,6 +99,9 @@ def known_r_domain(case):
     for st_ in prog.sites:
         if st_["ref"] in GOT_BASE_REFS and gidx[st_["tu"]] >= 0:
             return "r-drops-linker-defined-symbols"
+    gidx, groups = _partition(case, prog)
+    if nested_secsym_sites(case, prog, gidx, groups):
+        return "nested-r-section-symbol-double-offset"
     return None
 
 
@@ -87,7 +121,8 @@ class C27(Check):
     def strategy(self, tier):
         return st.fixed_dictionaries({
             "mode": st.integers(0, len(MODES) - 1),
-            "prog": progen.program_strategy(max_defs=12, max_sites=14, ntu=(3, 5), def_kinds=DEF_KINDS),
+            "prog": progen.program_strategy(max_defs=12, max_sites=14, ntu=(3, 5), def_kinds=DEF_KINDS,
+                                            binds=progen.BINDS + ["local", "local"]),
             "groups": st.lists(st.integers(-1, 2), min_size=7, max_size=7),   # per object (t0..t5, drv)
             "nest": st.booleans(),
             "ropt": st.integers(0, len(R_OPTS) - 1),
@@ -166,8 +201,8 @@ class C27(Check):
                 step = "r-step" if (s2 == "ok" and (out2, rc2) == (expected, exp_rc)) else "final-step"
             if known and step == "r-step":
                 raise Violation(known,
-                                f"wild -r drops COMMON / linker-defined symbols (relocations against them get symbol index 0); "
-                                f"final link {'fails' if s != 'ok' else 'misbehaves'}: {out[-300:]}", {"groups": groups, "mode": mode})
+                                f"known wild -r defect ({known}); final link {'fails' if s != 'ok' else 'misbehaves'}: "
+                                f"{out[-300:] if s != 'ok' else _first_diff(out, expected)}", {"groups": groups, "mode": mode})
             if s != "ok":
                 raise Violation(f"partial-link-then-link-fails:{step}",
                                 f"direct wild link works, but linking wild's -r outputs fails ({mode}, groups {groups}, nest {nest}): {out[-400:]}",
